@@ -386,6 +386,9 @@ def MOD(
     https://support.office.com/en-us/article/
         mod-function-9b6cd169-b6ee-406a-a97b-edf2a9dc24f3
     """
+    if divisor == 0:
+        raise xlerrors.DivZeroExcelError()
+
     return number % divisor
 
 
